@@ -42,3 +42,22 @@ pub fn dbg_parse(seed: u64, n: u64) -> i32 {
     println!("{fails} of {n} failed to parse");
     0
 }
+
+/// Debug aid: print the world of one C10 run.
+pub fn dbg_world(seed: u64, index: u64) -> i32 {
+    use crate::prng::{run_seed, Rng};
+    let mut rng = Rng::new(run_seed(seed, "C10", index));
+    let spec = c10::gen_world(&mut rng, 1, 1, false, true);
+    println!("policy draw follows; template: {}", spec.template_src[0]);
+    for (n, p) in &spec.partial_src {
+        println!("partial {n}: {p}");
+    }
+    println!("data: {}", spec.datas[0].show());
+    0
+}
+
+/// Debug aid: print the scenario of one C20 run.
+pub fn dbg_c20(seed: u64, index: u64) -> i32 {
+    println!("{}", c20::describe_run(seed, index));
+    0
+}
